@@ -207,8 +207,7 @@ def _run_cms(case, ctx):
                 ok = {clamp32(a + b)}
                 if a in (I32MAX, I32MIN):
                     ok.add(a)
-                if b in (I32MAX, I32MIN):
-                    ok.add(b)
+                # (a limit value in the ARGUMENT is an ordinary summand: only the receiver's own pinned cells stay as they are)
                 ctx.check("C16.cms_join", c in ok, lambda: f"join cell {i}: {a} + {b} -> {c}, expected one of {sorted(ok)}")
                 if not (I32MIN < a + b < I32MAX):
                     m.hit = True
